@@ -1436,6 +1436,12 @@ class SpaceManager(SharedSpaceOperations):
         if not self._can_add(cells.parent, name, CellsImpl):
             raise ValueError("cannot create cells '%s'" % name)
 
+        if not cells.formula._is_lambda and cells.formula.source is None:
+            # Raise before changing anything
+            raise ValueError(
+                "cannot rename '%s' whose source code is not available"
+                % cells.get_repr(fullname=True, add_params=False))
+
         if cells.bases:
             raise ValueError("'%s' is a sub Cells of '%s'" % (
                 cells.get_repr(fullname=True, add_params=False),
